@@ -27,8 +27,11 @@ TOL = Fraction(1, 10 ** 8)
 FN = ["john", "jon", "mary", "maria", "james", "jame", "anna", "ana", "peter", "petr", "none", "nona"]
 SN = ["smith", "smyth", "jones", "jonse", "brown", "browne", "taylor", "tailor", "none"]
 CITY = ["london", "leeds", "york", "bath", "hull"]
-DOB = ["1990-01-01", "1990-01-02", "1985-05-05", "1971-12-30", "2001-07-07"]
+DOB = ["1990-01-01", "1990-01-02", "1985-05-05", "1971-12-30", "2001-07-07", "1990-02-01", "1994-06-30", "1990-13-01"]
 AMT = [10.0, 10.5, 20.0, 100.0, 95.0, 12.25, 0.0, -5.0]
+POSTCODE = ["AB1 2CD", "AB1 2CE", "AB1 3CD", "AB12 9ZZ", "AC1 2CD", "B1 1AA", "zz"]
+EMAIL = ["john@a.com", "john@b.com", "jon@a.com", "mary@a.com", "nodomain"]
+TOKENS = ["x1", "x2", "x3", "y1", "y2", "z9"]
 COORD = [(51.5074, -0.1278), (51.5, -0.12), (53.8, -1.55), (53.96, -1.08), (48.8566, 2.3522), (0.0, 0.0)]
 
 
@@ -44,7 +47,8 @@ def gen_pipeline(rng, idx, backends):
     for _ in range(rng.randint(12, 22)):
         c = rng.choice(COORD)
         base.append({"first_name": rng.choice(FN), "surname": rng.choice(SN), "city": rng.choice(CITY), "dob": rng.choice(DOB),
-                     "amount": rng.choice(AMT), "lat": c[0], "lng": c[1]})
+                     "amount": rng.choice(AMT), "lat": c[0], "lng": c[1], "postcode": rng.choice(POSTCODE), "email": rng.choice(EMAIL),
+                     "arr": sorted(rng.sample(TOKENS, rng.randint(1, 3)))})
     for t in range(ntab):
         rows = []
         for _ in range(rng.randint(18, 30)):
@@ -62,10 +66,10 @@ def gen_pipeline(rng, idx, backends):
         rows = [r for r in rows if not (r["unique_id"] in seen or seen.add(r["unique_id"]))]
         tables.append(rows)
     specs = []
-    pool = ["jw_first", "lev_sur", "exact_city_tf", "amount", "dl_sur", "jaro_first", "dist_fn", "name_cmp", "exact_dob", "km", "lev_dob"]
+    pool = ["jw_first", "lev_sur", "exact_city_tf", "amount", "dl_sur", "jaro_first", "dist_fn", "name_cmp", "exact_dob", "km", "lev_dob", "city_custom"]
     rng.shuffle(pool)
     col_of = {"jw_first": "first_name", "jaro_first": "first_name", "name_cmp": "first_name", "lev_sur": "surname", "dl_sur": "surname",
-              "dist_fn": "surname", "exact_dob": "dob", "lev_dob": "dob"}
+              "dist_fn": "surname", "exact_dob": "dob", "lev_dob": "dob", "exact_city_tf": "city", "city_custom": "city"}
     chosen, used = [], set()
     for c in pool:                      # one comparison per input column (output column names must be unique)
         if col_of.get(c, c) in used:
@@ -136,6 +140,22 @@ def build_settings(spec):
                 cll.PercentageDifferenceLevel("amount", 0.25), cll.ElseLevel()]))
         elif c == "km":
             comps.append(cl.DistanceInKMAtThresholds("lat", "lng", [1, 50]))
+        elif c == "city_custom":        # LiteralMatch + And/Not compositions inside a custom comparison
+            comps.append(cl.CustomComparison(output_column_name="city", comparison_levels=[
+                cll.NullLevel("city"), cll.And(cll.ExactMatchLevel("city"), cll.LiteralMatchLevel("city", "london", "string", "both")),
+                cll.ExactMatchLevel("city"),
+                cll.And(cll.Not(cll.ExactMatchLevel("city")), cll.LiteralMatchLevel("city", "leeds", "string", "left")), cll.ElseLevel()]))
+        # ---- features only DuckDB and Spark accept (thorough tier, c06_spark) ----
+        elif c == "arr_intersect":
+            comps.append(cl.ArrayIntersectAtSizes("arr", [2, 1]))
+        elif c == "date_diff":
+            comps.append(cl.AbsoluteDateDifferenceAtThresholds("dob", input_is_string=True, metrics=["month", "year"], thresholds=[1, 5]))
+        elif c == "dob_cmp":
+            comps.append(cl.DateOfBirthComparison("dob", input_is_string=True))
+        elif c == "postcode":
+            comps.append(cl.PostcodeComparison("postcode"))
+        elif c == "email":
+            comps.append(cl.EmailComparison("email"))
     brs = []
     for b in spec["blocking"]:
         brs.append("l.surname = r.surname and substr(l.first_name, 1, 1) = substr(r.first_name, 1, 1)" if b == "expr" else block_on(b))
@@ -147,9 +167,18 @@ def build_settings(spec):
 def frames(case):
     out = []
     for rows in case["tables"]:
-        d = pd.DataFrame(rows, columns=["unique_id", "first_name", "surname", "city", "dob", "amount", "lat", "lng"])
-        for c in ("first_name", "surname", "city", "dob"):
-            d[c] = d[c].astype("string")
+        cols = ["unique_id", "first_name", "surname", "city", "dob", "amount", "lat", "lng"]
+        used = set(case["spec"]["comparisons"])
+        if "postcode" in used:
+            cols.append("postcode")
+        if "email" in used:
+            cols.append("email")
+        if "arr_intersect" in used:
+            cols.append("arr")
+        d = pd.DataFrame(rows, columns=cols)
+        for c in ("first_name", "surname", "city", "dob", "postcode", "email"):
+            if c in d:
+                d[c] = d[c].astype("string")
         d["amount"] = d["amount"].astype("float64")
         out.append(d)
     return out
